@@ -85,7 +85,8 @@ type Table struct {
 
 func genTable(rng *rand.Rand, kind string) *Table {
 	ncols := 1 + rng.Intn(5)
-	names := []string{"id", "k2", "name", "val", "x_y", "Z"}
+	// (a column name may begin or end with white space: " id" and "id" are two columns)
+	names := []string{"id", "k2", "name", "val", "x_y", "Z", " id", "val "}
 	rng.Shuffle(len(names), func(i, j int) { names[i], names[j] = names[j], names[i] })
 	t := &Table{Cols: append([]string{}, names[:ncols]...)}
 	// primary key: none, or a random non-empty subset in random order
